@@ -3544,6 +3544,11 @@ namespace awkward {
               }
               // Forth (gforth, at least) does floor division; C++ does integer division.
               // This makes a difference for negative numerator or denominator.
+              if (pair[1] == -1) {
+                // (minimum integer) / -1 traps in hardware; it wraps like 'negate'
+                pair[0] = -pair[0];
+                break;
+              }
               T tmp = pair[0] / pair[1];
               pair[0] = tmp * pair[1] == pair[0] ? tmp : tmp - ((pair[0] < 0) ^ (pair[1] < 0));
               break;
@@ -3561,7 +3566,12 @@ namespace awkward {
               }
               // Forth (gforth, at least) does modulo; C++ does remainder.
               // This makes a difference for negative numerator or denominator.
-              pair[0] = (pair[1] + (pair[0] % pair[1])) % pair[1];
+              // (pair[1] + remainder could overflow, and anything % -1 may trap.)
+              T rem = (pair[1] == -1 ? 0 : pair[0] % pair[1]);
+              if (rem != 0  &&  ((rem < 0) != (pair[1] < 0))) {
+                rem += pair[1];
+              }
+              pair[0] = rem;
               break;
             }
 
@@ -3577,11 +3587,20 @@ namespace awkward {
                 return;
               }
               // See notes on division and modulo/remainder above.
+              if (two == -1) {
+                // (minimum integer) / -1 traps in hardware; it wraps like 'negate'
+                stack_buffer_[stack_depth_ - 1] = -one;
+                stack_buffer_[stack_depth_ - 2] = 0;
+                break;
+              }
               T tmp = one / two;
+              T rem = one % two;
+              if (rem != 0  &&  ((rem < 0) != (two < 0))) {
+                rem += two;
+              }
               stack_buffer_[stack_depth_ - 1] =
                   tmp * two == one ? tmp : tmp - ((one < 0) ^ (two < 0));
-              stack_buffer_[stack_depth_ - 2] =
-                  (two + (one % two)) % two;
+              stack_buffer_[stack_depth_ - 2] = rem;
               break;
             }
 
